@@ -9,7 +9,7 @@
 (* machine re-synchronises on the observed value; the checker turns each  *)
 (* MISMATCH line into a VIOLATION (or matches it to a known finding).     *)
 (* Acceptance of the whole file is by POSTCONDITION (every line consumed).*)
-EXTENDS PositMachine, Json, IOUtils, TLC, TLCExt
+EXTENDS PositMachine, AlgoPx, Json, IOUtils, TLC, TLCExt
 
 Rec == ndJsonDeserialize(IOEnv.TRACE)
 
@@ -99,6 +99,8 @@ XAccept(ev, N, ES, x, r) ==
     [] ev.op = "from_p32" -> r = PConv(32, 2, N, ES, x[1])
     [] ev.op = "new" -> r = Shr(x[1], XSh(ev))
     [] OTHER -> (Pre(ev.op, N, ES, x) => Accept(ev.op, ev.sp, N, ES, x, r))
+\* the code also refines the algorithm-level specification AlgoPx (which MCAlgo shows refines Accept for every N)
+AlgoOk(ev, N, x) == (ev.t = "x2" /\ ev.op = "mul" /\ N >= 3) => Shr(ev.r, XSh(ev)) = AlgoMulE2(N, x[1], x[2])
 GoodX(ev, F, raw) ==
   LET N == F[1] ES == F[2] x == XArgs(ev, raw) IN
   /\ ev.o = "ok"
@@ -110,6 +112,7 @@ GoodX(ev, F, raw) ==
      ELSE IF ev.op \in XPositResOps THEN
         /\ (ev.op # "new" => XLowZero(ev, ev.r))
         /\ XAccept(ev, N, ES, x, Shr(ev.r, XSh(ev)))
+        /\ AlgoOk(ev, N, x)
      ELSE XAccept(ev, N, ES, x, ev.r)
 DiagX(ev, F, raw) ==
   LET N == F[1] ES == F[2] x == XArgs(ev, raw) IN
